@@ -41,6 +41,10 @@ def plan(tier):
                 # capacity-bounded storages far beyond their capacity (evictions / in-place replacements between calls)
                 for st in ('Interval', 'Sequence', 'Geometric'):
                     tasks.append((dict(cfg, storage=st), 5, 1 if st == 'Geometric' else 0, False, 2))
+    # a model that returns one pre-allocated output dict, overwritten in place at every call: predictions the explainer
+    # keeps by reference must have been consumed before the model is called again
+    for cfg in sc.buffer_configs('pfi'):
+        tasks.append((cfg, 4, 1 if cfg['storage'] == 'Geometric' else 0, False, 2))
     tasks.sort(key=lambda t: -(t[2] or 0))
     return tasks
 
